@@ -197,6 +197,10 @@ func TestVerif_C16(t *testing.T) {
 					// every frame differs from its predecessor by more than delta: continuous motion
 					frames = append(frames, f)
 					seq++
+					// camera resets: a snapshot right after a 'clear' must still show the last completed frame
+					if i > 0 && rng.Intn(framesPerConn) < 4 {
+						frames = append(frames, &pFrame{Clear: true, Seq: -1})
+					}
 				}
 				allFrames = append(allFrames, frames)
 				r, err := prepareConn(scratch, cfg, cam)
@@ -208,6 +212,13 @@ func TestVerif_C16(t *testing.T) {
 				}
 				runs = append(runs, r)
 				first := int64(frames[0].Seq)
+				nClears := 0
+				for _, f := range frames {
+					if f.Clear {
+						nClears++
+					}
+				}
+				c.Count("clear_markers", int64(nClears))
 				cur := first - 1
 				hook := func(name string) {
 					switch name {
@@ -219,6 +230,18 @@ func TestVerif_C16(t *testing.T) {
 						atomic.StoreInt32(&lg.published, 1)
 						atomic.AddInt64(&lg.clock, 1)
 						// a request served exactly between publication and the first frame
+						done := make(chan struct{})
+						select {
+						case handshake <- done:
+							select {
+							case <-done:
+							case <-time.After(5 * time.Second):
+							}
+						default:
+						}
+					case "conn.clear":
+						atomic.AddInt64(&lg.clock, 1)
+						// a request served right after the reset, before the next frame
 						done := make(chan struct{})
 						select {
 						case handshake <- done:
@@ -259,6 +282,12 @@ func TestVerif_C16(t *testing.T) {
 						return err
 					}
 					for i, f := range frames {
+						if f.Clear {
+							if err := cw.Write([]byte("clear")); err != nil {
+								return err
+							}
+							continue
+						}
 						if err := cw.Write(f.raw(cam)); err != nil {
 							return err
 						}
